@@ -35,6 +35,19 @@ RUN_WALL_LIMIT = float(os.environ.get("VERIF_RUN_WALL", "30"))
 # one run in a forked child
 
 def run_in_child(spec, tier, run_seed, replay=None, trace=False):
+    """One run in a forked child. A run cut off by the wall watchdog is repeated once with four times the
+    limit (one seed is one execution, so the repetition is the same run): a loaded machine must not turn a
+    slow run into a harness error, while a run that really hangs still is one."""
+    t0 = time.monotonic()
+    res = _run_in_child(spec, tier, run_seed, replay, trace, RUN_WALL_LIMIT)
+    if res.get("timed_out"):
+        res = _run_in_child(spec, tier, run_seed, replay, trace, 4 * RUN_WALL_LIMIT)
+        res["wall_retry"] = 1
+    res["run_wall"] = time.monotonic() - t0
+    return res
+
+
+def _run_in_child(spec, tier, run_seed, replay, trace, wall_limit):
     rfd, wfd = os.pipe()
     pid = os.fork()
     if pid == 0:
@@ -63,7 +76,7 @@ def run_in_child(spec, tier, run_seed, replay=None, trace=False):
             os._exit(code)
     os.close(wfd)
     chunks = []
-    deadline = time.monotonic() + RUN_WALL_LIMIT
+    deadline = time.monotonic() + wall_limit
     timed_out = False
     while True:
         left = deadline - time.monotonic()
@@ -86,8 +99,8 @@ def run_in_child(spec, tier, run_seed, replay=None, trace=False):
             pass
     os.waitpid(pid, 0)
     if timed_out:
-        return {"verdict": "harness-error", "message": f"run exceeded {RUN_WALL_LIMIT}s wall clock",
-                "seed": run_seed}
+        return {"verdict": "harness-error", "message": f"run exceeded {wall_limit}s wall clock",
+                "seed": run_seed, "timed_out": True}
     raw = b"".join(chunks)
     if not raw:
         return {"verdict": "harness-error", "message": "child produced no result", "seed": run_seed}
@@ -126,11 +139,13 @@ def new_agg():
             "violations": [], "steps": 0, "switches": 0, "preemptions": 0, "sync_events": 0,
             "probes": {}, "faults": {}, "signatures": set(), "nontrivial_runs": 0, "samples": [],
             "rechecked": 0, "nondeterministic": [], "skips": {}, "strategies": {}, "stalls_seen": 0,
-            "max_live": 0, "digest_xor": 0, "abstract_states": set()}
+            "max_live": 0, "digest_xor": 0, "abstract_states": set(), "max_run_wall": 0.0, "wall_retries": 0}
 
 
 def fold(agg, res):
     agg["runs"] += 1
+    agg["max_run_wall"] = max(agg["max_run_wall"], res.get("run_wall", 0.0))
+    agg["wall_retries"] += res.get("wall_retry", 0)
     v = res.get("verdict")
     if v == "harness-error":
         if len(agg["harness_errors"]) < 5:
@@ -185,6 +200,8 @@ def merge(a, b):
               "sync_events", "nontrivial_runs", "rechecked", "stalls_seen"):
         a[k] += b[k]
     a["max_live"] = max(a["max_live"], b["max_live"])
+    a["max_run_wall"] = max(a["max_run_wall"], b["max_run_wall"])
+    a["wall_retries"] += b["wall_retries"]
     a["digest_xor"] ^= b["digest_xor"]
     a["harness_errors"].extend(b["harness_errors"])
     a["nondeterministic"].extend(b["nondeterministic"])
@@ -543,6 +560,8 @@ def write_evidence(spec, tier, base_seed, total, wall, reported, stopped_early, 
             "preemptions": total["preemptions"],
             "sync_events": total["sync_events"],
             "max_concurrently_runnable_tasks": total["max_live"],
+            "slowest_run_wall_s": round(total["max_run_wall"], 2),
+            "runs_repeated_after_wall_watchdog": total["wall_retries"],
             "distinct_abstract_states": len(total["abstract_states"]),
             "abstract_state_rule": "CRC32 of (operation kind, per live task (role, what it waits on), queue lengths capped at 3, "
                                    "lock / event flags) taken at every synchronisation event; engine A only (0 for engines B and C)",
